@@ -32,8 +32,11 @@ class Oracle:
         self._rng = None
         self.grid = None         # int or callable(call_index) -> int : size of the aligned grid for random()
         self.attached = False
+        self.trail_truncated = False
         self._saved = None
         self.zero_draws = 0      # seeded-grid mode: 1 in `zero_draws` uniform draws is exactly 0.0
+        self.max_draws = 200000  # enumerate / directed: an execution with more draws is not enumerable (e.g. rejection sampling)
+        self.max_trail = 2000000 # seeded: the trail stops being recorded beyond this length (a spinning run must not eat memory)
 
     # -- installation -----------------------------------------------------
     def _install(self):
@@ -62,6 +65,9 @@ class Oracle:
     # -- the two primitives -------------------------------------------------
     def _next(self, kind, n):
         if self.mode == "seeded":
+            if len(self.trail) >= self.max_trail:
+                self.trail_truncated = True
+                del self.trail[self.max_trail // 2:]
             v = self._rng._randbelow(n) if kind == "b" else None
             if kind == "r":
                 if self.grid:                     # seeded-grid: a uniformly chosen point of the aligned grid
@@ -77,6 +83,8 @@ class Oracle:
             self.trail.append(["b", n, v])
             return v
         # enumerate / directed: choose index in range(n)
+        if self._pos >= self.max_draws:
+            raise OracleMismatch("more than %d draws in one execution: its decision tree is not enumerable" % self.max_draws)
         if self._pos < len(self._plan):
             v = self._plan[self._pos]
             if self.mode == "directed" and not (0 <= v < n):
